@@ -330,6 +330,11 @@ def mutations(desc, rng, limit=24):
         # input field -> parameter of the same shape
         d2 = copy.deepcopy(base); del d2['fields'][name]; d2['params'] = dict(d2.get('params', {})); d2['params'][name] = f['shape']
         d2['exprs'] = json_replace(d2['exprs'], ['field', name], ['param', name]); out.append(('input vs parameter', d2))
+    # declared shapes: one more row / column than before (the indices used by the form stay valid)
+    for name, shp in desc.get('params', {}).items():
+        if len(shp) >= 1:
+            for ax in range(len(shp)):
+                d2 = copy.deepcopy(base); s2 = list(shp); s2[ax] += 1; d2['params'][name] = s2; out.append(('parameter shape', d2))
     if desc['arity'] == 2:
         d2 = copy.deepcopy(base); d2['spaces'] = [0, 1] if desc['spaces'] == [0, 0] else [0, 0]; out.append(('space index', d2))
     if not desc.get('boundary') and desc['geo_dim'] == desc['dim'] and desc['dim'] >= 2:
